@@ -7,9 +7,11 @@ C = Const
 TYPES = {
     'va': 'u8', 'vb': 'u8', 'vc': 'u8', 'vd': 'u8', 'sa': 's8', 'sb': 's8', 'sc': 's8',
     'wa': 'u16', 'wb': 'u16', 'wc': 'u16', 'ha': 's16', 'hb': 's16', 'hc': 's16',
+    'ks': 's8', 'ku': 'u8', 'kw': 's16',
     'arr': ('arr', 'u8', 4), 'brr': ('arr', 'u8', 4), 'sarr': ('arr', 's8', 4), 'warr': ('arr', 'u16', 3), 'pp': 'ptr', 'pq': 'ptr',
 }
-ORDER = ['va', 'vb', 'vc', 'vd', 'sa', 'sb', 'sc', 'wa', 'wb', 'wc', 'ha', 'hb', 'hc', 'arr', 'brr', 'sarr', 'warr', 'pp', 'pq']
+CONST_INITS = {'ks': -2, 'ku': 200, 'kw': -300}
+ORDER = ['ks', 'ku', 'kw', 'va', 'vb', 'vc', 'vd', 'sa', 'sb', 'sc', 'wa', 'wb', 'wc', 'ha', 'hb', 'hc', 'arr', 'brr', 'sarr', 'warr', 'pp', 'pq']
 REGS = ('X', 'Y')
 BOUNDARY = [0, 1, 2, 7, 8, 127, 128, 255]
 BOUNDARY16 = [0, 1, 255, 256, 257, 0x7fff, 0x8000, 0xffff]
@@ -46,6 +48,7 @@ def mkprog(pid, stmts, funcs=(), extra_globals=(), pre='', quals=None):
     names = used_names(list(stmts) + [f.body for f in funcs])
     globs = [(TYPES[n], n) for n in ORDER if n in names or n in extra_globals]
     p = Prog(pid, globs, list(funcs), Block(stmts), quals=quals, pre=pre)
+    p.inits = {n: v for n, v in CONST_INITS.items() if n in names}
     return p
 
 
